@@ -4,11 +4,6 @@ From AV Require Import Base.Util Model.Consumer Model.ConsumerLog Proofs.Consume
 
 Notation J := (PInv (false, false) None).
 
-Lemma neutral_pw g l : forallb pw_neutral l = true -> gouts pw_out g l = Some g.
-Proof.
-  induction l as [|x l IH]; cbn [forallb gouts]; [reflexivity|]. intro H. apply andb_prop in H. destruct H as [H1 H2].
-  destruct x; try discriminate H1; cbn [pw_out]; auto.
-Qed.
 Lemma J_pend s : J s -> forallb pw_neutral (s_pend s) = true.
 Proof. unfold PInv. intro K. repeat (apply andb_prop in K; destruct K as [K ?]). assumption. Qed.
 
@@ -43,25 +38,35 @@ Ltac cE := idtac; first [ c8 | lazymatch goal with
   | |- wp _ (run fuel (KFireProc _)) _ _ _ => fail
   | |- wp _ (run fuel KStop) _ _ _ => fail
   | |- wp _ (run fuel (KProcLoop _)) _ _ _ => fail
+  | |- wp _ (run fuel (KFetchResp _ _)) _ _ _ =>
+    eapply p_eq with (w := @None (Z * Z)); [ solve [psolve] |
+      eapply wp_call; [ eapply (Hrec_fetch rec Hrec); [ pinv_arg | wcond ] | after_call ] ]
   | |- wp _ (run fuel _) _ _ _ =>
     eapply p_eq with (w := @None (Z * Z)); [ solve [psolve] |
-      eapply wp_call; [ eapply (Hrec_plain rec Hrec); [ pinv_arg | wcond | exact I ] | after_call ] ]
+      eapply wp_call; [ eapply (Hrec_plain rec Hrec); [ pinv_arg | exact I ] | after_call ] ]
   | |- wp _ (handle_commit_error _ _ _ _) _ _ _ =>
     eapply p_eq with (w := @None (Z * Z)); [ solve [psolve] |
-      eapply wp_call; [ eapply (p_handle_commit_error rec Hrec); [ pinv_arg | wcond ] | after_call ] ]
+      eapply wp_call; [ eapply (p_handle_commit_error rec Hrec); pinv_arg | after_call ] ]
   end ].
 
+Ltac ev_auto := solve [ repeat (first [ p_flush | p_stif | p_emit_api | p_emit | wp_step cE ]); p_done ].
 Lemma pe_handle e s : J s -> ww (handle fuel e) (PQ (false, false) None) (pw_ev (pw_abs None s) e) s.
 Proof.
   intro K. unfold handle. destruct e; cbn [pw_ev].
-  all: unfold handle_offset_response, flush_pend, api_commit.
-  all: try solve [ repeat (first [ p_flush | p_stif | p_emit_api | p_emit | wp_step cE ]); p_done ].
+  all: unfold handle_offset_response, flush_pend, api_commit, api_shutdown.
+  - (* EStart *) ev_auto.
   - (* EStop *) apply wp_bind, wp_get. cbn beta iota. unfold api_stop. apply wp_bind, wp_try.
-    eapply wp_conseq; [ apply (Hrec KStop (false, false) None); cbn; repeat split; auto; intro; discriminate |].
+    eapply wp_conseq; [ apply (Hrec KStop (false, false) None); cbn; repeat split; auto |].
     intros r g' s' [-> H]. cbn beta iota.
     assert (K' : J s') by (destruct H as [H | (_ & _ & H)]; [ clear - H; psolve | exact H ]).
     apply wp_bind, wp_get. cbn beta iota.
     destruct r; repeat (first [ p_emit_api | wp_step cE ]); p_done.
+  - (* EShutdown *) pose proof (J_pend _ K) as NPs. ev_auto.
+  - (* ECommit *) ev_auto.
+  - (* EReqOk *) ev_auto.
+  - (* EFetchOk *) ev_auto.
+  - (* EReqFail *) ev_auto.
+  - (* EPlan *) ev_auto.
   - (* EProcFire *) apply wp_bind, wp_get. cbn beta iota.
     destruct (s_proc s) as [[[l rest] c]|] eqn:SP.
     + apply wp_swallow. eapply wp_conseq; [ apply (Hrec (KFireProc (if ok then None else Some FK_PROC)) (false, false) None) |].
@@ -69,6 +74,11 @@ Proof.
       * intros r g' s' [-> [H | (E & _)]]; [| discriminate E]. split; [reflexivity | exact H].
     + unfold pw_abs. rewrite SP. cbn [w_st]. apply wp_emit. eexists. split; [reflexivity|].
       split; [unfold pw_abs; rewrite SP; reflexivity | exact K].
+  - (* ECommitOk *) ev_auto.
+  - (* ECommitFail *) ev_auto.
+  - (* EFireRetry *) ev_auto.
+  - (* EFireCommitRetry *) ev_auto.
+  - (* ETick *) ev_auto.
 Qed.
 
 Lemma pe_step s e s' o : J s -> step fuel s e = (s', o) -> fuel_ok o = true ->
